@@ -226,16 +226,44 @@ fn iterator_machine(v: u64, ns: &[usize]) -> (u64, Vec<Divergence>) {
         if got != mem.get(lo).copied() || j.clone().map(|p| p as u8).collect::<Vec<u8>>() != mem[(lo + 1).min(mem.len())..] {
             d.push(Divergence::new("iter-next-wrong", format!("{rem:#018x}")));
         }
+        let left = len.saturating_sub(1);
+        if j.size_hint() != (left, Some(left)) || j.clone().count() != left {
+            d.push(Divergence::new("iter-size_hint-wrong-after-next", format!("{rem:#018x}: after next() size_hint() = {:?}, {left} elements are left", j.size_hint())));
+        }
+        // a whole drain by stepping, the hint checked on the way (state carried, not rebuilt)
+        if lo == 0 {
+            let mut k = it.clone();
+            let mut remaining = len;
+            while k.next().is_some() {
+                remaining -= 1;
+                if k.size_hint() != (remaining, Some(remaining)) {
+                    d.push(Divergence::new("iter-size_hint-wrong-while-draining", format!("{rem:#018x}: {} left, size_hint() = {:?}", remaining, k.size_hint())));
+                    break;
+                }
+            }
+            if k.next().is_some() || k.size_hint() != (0, Some(0)) {
+                d.push(Divergence::new("iter-not-fused-or-hint-wrong-at-the-end", format!("{rem:#018x}")));
+            }
+        }
         for &n in ns {
             evals += 1;
             let mut j = it.clone();
             let got = std::panic::catch_unwind(move || {
                 let g = j.nth(n).map(|p| p as u8);
-                (g, j.map(|p| p as u8).collect::<Vec<u8>>())
+                // what the iterator says about itself right after the skip, then what it still yields
+                let hint = j.size_hint();
+                let cnt = j.clone().count();
+                (g, hint, cnt, j.map(|p| p as u8).collect::<Vec<u8>>())
             });
             let (want, after): (Option<u8>, &[u8]) = if n < len { (Some(mem[lo + n]), &mem[lo + n + 1..]) } else { (None, &[]) };
             match got {
-                Ok((g, rest)) => {
+                Ok((g, hint, cnt, rest)) => {
+                    if g == want && rest == after && (hint != (after.len(), Some(after.len())) || cnt != after.len()) {
+                        d.push(Divergence::new(
+                            "iter-size_hint-wrong-after-nth",
+                            format!("{rem:#018x}.iter().nth({n}): afterwards size_hint() = {hint:?} and count() = {cnt}, {} elements are left", after.len()),
+                        ));
+                    }
                     if g != want {
                         d.push(Divergence::new(
                             if n < len { "iter-nth-wrong-element" } else { "iter-nth-past-end-returns-element" },
